@@ -150,6 +150,11 @@ def Mem.listVersions (m : Mem) (b : Bytes) (p : Prefix) (keyMarker : Bytes) (ver
       | none => .err .Internal
       | some _ =>
         -- inclusive seek: objects with key ≥ keyMarker
-        verLoop p masked maxKeys (bk.objects.filter (fun q => !Bytes.lt q.1 keyMarker)) verMarker 0 ⟨[], [], false⟩
+        let from_ := bk.objects.filter (fun q => !Bytes.lt q.1 keyMarker)
+        if from_.isEmpty then
+          -- the seek failed; the loop does not run, and the final `iter.Next()` restarts from the
+          -- head of the list: IsTruncated is reported although nothing follows
+          .ok ⟨[], [], !bk.objects.isEmpty⟩
+        else verLoop p masked maxKeys from_ verMarker 0 ⟨[], [], false⟩
 
 end GFS.Model
